@@ -474,17 +474,19 @@ def preComplete (cfg : Cfg) (rq : Req) (fs : FS) : List Step :=
   let fs1 := run s1 fs
   let up (a : String) : List (String × Val) := match readAttr cfg fs mp a with | some v => [(a, v)] | none => []
   let ct := match readAttr cfg fs mp "content-type" with | some v => if v != "" then [("content-type", v)] else [] | none => []
-  let s2 := storeAttrs cfg fs1 o.1 obj ct
-  let fs2 := run s2 fs1
-  let s3 := mkdirAll fs2 obj.dropLast
-  let fs3 := run s3 fs2
+  -- since 73b52f0: parent directories, then the archive of the replaced object, then (sidecar) the removal of
+  -- the key's by-name attributes, and only then the attributes of the new object, content headers first
+  let s3 := mkdirAll fs1 obj.dropLast
+  let fs3 := run s3 fs1
   let ven := cfg.verDir && cfg.vstatus == .enabled
   let s4 := if ven && fs3.isFile obj then archive cfg rq fs3 rq.key else []
   let fs4 := run s4 fs3
+  let s5 := deleteAttrs cfg fs4 obj
+  let fs5 := run s5 fs4
   let metas := (listAttrs cfg fs mp).filter isMetaAttr |>.filterMap (fun a => (readAttr cfg fs mp a).map (fun v => (a, v)))
-  let rest := (if ven then [("version-id", rq.newVid)] else []) ++ metas ++ up "X-Amz-Tagging" ++ up "object-legal-hold" ++
+  let rest := ct ++ (if ven then [("version-id", rq.newVid)] else []) ++ metas ++ up "X-Amz-Tagging" ++ up "object-legal-hold" ++
               up "object-retention" ++ [("etag", "new")]
-  s1 ++ s2 ++ s3 ++ s4 ++ storeAttrs cfg fs4 o.1 obj rest
+  s1 ++ s3 ++ s4 ++ s5 ++ storeAttrs cfg fs5 o.1 obj rest
 
 /-- os.RemoveAll(upload dir), os.Remove(object dir) -/
 def cleanupUpload (cfg : Cfg) (rq : Req) (fs : FS) : List Step :=
